@@ -173,9 +173,11 @@ class DistributedPerLayerOptimizer(DPOptimizer):
             if not p.requires_grad:
                 continue
 
-            if not hasattr(p, "ddp_hooks"):
-                p.ddp_hooks = []
+            # hooks of an optimizer this one replaces (a second make_private) must not
+            # keep clipping and accumulating into the same parameter
+            for handle in getattr(p, "ddp_hooks", []):
+                handle.remove()
 
-            p.ddp_hooks.append(
+            p.ddp_hooks = [
                 p.register_hook(partial(self._ddp_per_layer_hook, p, max_grad_norm))
-            )
+            ]
